@@ -711,6 +711,13 @@ func closedSchema(c *an.Ctx, rule string) {
 	}
 	root := sp.Type("configDefinition")
 	if root == nil {
+		if n := c.P.Named("internal/config", "configDefinition"); n != nil {
+			if tn, ok := sp.Members[n.Obj().Name()].(*ssa.Type); ok {
+				root = tn
+			}
+		}
+	}
+	if root == nil {
 		c.Und(rule, "config.configDefinition", token.NoPos, "configDefinition not found")
 		return
 	}
